@@ -1,7 +1,7 @@
 """C16 - objective failure is contained."""
 from vlib import core, solver_checks as S, agp_corr as A, oracles as O, harness as H
 
-EXCS = ['RuntimeError', 'KeyboardInterrupt', 'SystemExit', 'ValueError', 'GeneratorExit', 'ZeroDivisionError']
+EXCS = ['RuntimeError', 'KeyboardInterrupt', 'SystemExit', 'ValueError', 'GeneratorExit', 'ZeroDivisionError', 'StopIteration', 'StopAsyncIteration', 'MemoryError', 'AssertionError']
 
 
 def run(chk):
